@@ -8,7 +8,7 @@ structure Cur where
   st : St := {}
 
 def recoveredLine (dag : Dag) (r : St) : String :=
-  s!"rb={rebuildTok r.log} raw={rawTok r.store} {dumpLine dag r}"
+  s!"rb={rebuildTok r.log} raw={rawTok r.store} {dumpLight dag r}"
 
 def stepLine (c : Cur) (line : String) : Cur × String :=
   match fields line with
